@@ -24,7 +24,7 @@ func init() {
 		Property: "C14", EngineName: "chainsim",
 		New:       func(tier string) core.Engine { return &chainsim{tier: tier} },
 		QuickRuns: 40000, QuickCapS: 60, ThoroughRun: 2000000, ThoroughCap: 1200,
-		Rule: "a case = (entry API kind, chain of 1-8 frames each one of 14 script frame kinds or 14 native calling conventions, payload kind raised by the innermost frame / interrupt tick / call-depth limit, what the Go-implemented return() and next() of every host iterator consumed by a for-of / destructuring frame or by an iterate()-based built-in (Array.from mapper, Set subclass add(), Promise.all resolve) do); distinct = distinct (entry, frame-kind sequence, payload kind); non-trivial = the chain has at least one native frame and the abrupt state crossed at least one script catch/finally frame",
+		Rule: "a case = (entry API kind, chain of 1-8 frames each one of 14 script frame kinds or 15 native calling conventions, payload kind raised by the innermost frame / interrupt tick / call-depth limit, what the Go-implemented return() and next() of every host iterator consumed by a for-of / destructuring frame or by an iterate()-based built-in (Array.from mapper, Set subclass add(), Promise.all resolve) do); distinct = distinct (entry, frame-kind sequence, payload kind); non-trivial = the chain has at least one native frame and the abrupt state crossed at least one script catch/finally frame",
 		Real: realComponents,
 		Stub: []string{"every native frame of the chain (host functions of each calling convention)", "the host-implemented iterators (objects made by Go whose [Symbol.iterator], next and return are Go functions)", "the catch/finally recorders C and F", "the raiser (innermost frame) and the interrupting watchdog (tick hook, same goroutine)"},
 		Assumptions: []string{
@@ -36,6 +36,7 @@ func init() {
 			"*Exception pointer identity is asserted only when the raiser panicked with / returned an *Exception and no script catch or finally frame lies between it and the host",
 			"ECMA-262 IteratorClose: an exception thrown by return() is ignored when the loop is left by a throw and replaces the completion when it is left by return/break or when a destructuring pattern ends; a non-goja panic in return() is not an exception and must reach the host in both cases; an iterator whose next() throws is not closed",
 			"iterate()-based built-ins (IfAbruptCloseIterator): a throw from the per-element callback closes the iterator (return()'s own throw ignored) and goes on; an uncatchable condition, bare or wrapped through any %w chain, passes without return() / a generator's finally block running; a non-goja panic from the callback passes without return() being called, one raised by return() reaches the host",
+			"Runtime.ForOf driven by a native frame over a script iterable: the step callback stops after the first value (return() is called, what it throws replaces the completion); a script exception leaving the step callback closes the iterator and goes on; an exception thrown by next() does not close it; an uncatchable condition (bare or %w-wrapped) or a foreign panic passes without return() running. KNOWN DEVIATION, asserted only with VERIF_C14_FOROF_GO_ORIGINAL_WINS=1: when the step callback threw and return() throws too, ForOf lets return()'s exception supersede the original one (in a for-of loop the original wins)",
 			"a foreign panic raised synchronously ends the outermost call before the promise job queue is drained: jobs pending at that point need not run",
 			"after rt.Interrupt() inside a native that is not followed by any VM instruction the interrupt stays pending (documented: it only works while in JavaScript code); the host clears it before reusing the runtime",
 		},
@@ -113,6 +114,9 @@ func (e *chainsim) Run(t *core.Tape, want bool) *core.Result {
 	hasRetIntr, hasRetOvf, hasRetForeign := false, false, false
 	for i := range frames {
 		ra, na := chRetActTable[S.Draw(len(chRetActTable))], chNextActTable[S.Draw(len(chNextActTable))]
+		if frames[i].kind == cnForOfStep {
+			frames[i].sret = chSretOf(ra)
+		}
 		if frames[i].usesHostIter() {
 			frames[i].retAct, frames[i].nextAct = ra, na
 			hasRetIntr = hasRetIntr || ra == retInterrupt
@@ -159,6 +163,8 @@ func (e *chainsim) Run(t *core.Tape, want bool) *core.Result {
 			c += fmt.Sprintf("%d.%d.%d", f.sel%nIterSel, f.retAct, f.nextAct)
 		case cjIterBuiltin:
 			c += fmt.Sprintf("%d.%d.%d", f.sel%nBuiltinSel, f.retAct, f.nextAct)
+		case cnForOfStep:
+			c += fmt.Sprintf("%d.%d", f.sel%nFosSel, f.sret)
 		}
 		codes = append(codes, c)
 	}
@@ -193,7 +199,7 @@ func (e *chainsim) Run(t *core.Tape, want bool) *core.Result {
 			r.armIntr = hasRetIntr || pl == cpIntrNative || pl == cpIntrTick
 			r.armOvf = depthLimit >= 0 || hasRetOvf
 		}
-		r.gotUnc = make([]bool, n+2)
+		r.gotUnc, r.enteredFos, r.doneFos = make([]bool, n+2), make([]bool, n+2), make([]bool, n+2)
 		r.depthLimit = math.MaxInt32
 		if depthLimit >= 0 {
 			r.depthLimit = depthLimit
@@ -323,6 +329,9 @@ func (e *chainsim) Run(t *core.Tape, want bool) *core.Result {
 				fmt.Fprintf(&sb, " (variant %d)", f.sel%nJobSel)
 			case cjGen:
 				fmt.Fprintf(&sb, " (variant %d)", f.sel%nGenSel)
+			case cnForOfStep:
+				fmt.Fprintf(&sb, " (%s; next frame called by %s; script return() %s)", [...]string{"func(FunctionCall) Value, plain rt.ForOf", "func(Value) (Value, error), rt.Try around rt.ForOf"}[f.sel&fosReflect],
+					[...]string{"the Go step callback", "the iterable's next()"}[(f.sel&fosInNext)/2], chSretNames[f.sret])
 			case cjIterBuiltin:
 				fmt.Fprintf(&sb, " (%s", chBuiltinSelNames[f.sel%nBuiltinSel])
 				if f.usesHostIter() {
@@ -450,6 +459,10 @@ func (e *chainsim) Run(t *core.Tape, want bool) *core.Result {
 		cnt(m.retForeignOnReturn, "foreign-panic-in-return()-after-normal-completion")
 		cnt(m.iterNotClosedAbrupt, "host-iterator-passed-by-foreign-panic")
 		cnt(m.nextThrew, "host-iterator-next()-threw")
+		cnt(m.forOfClosedOnThrow, "ForOf-step-closed-by-throw")
+		cnt(m.forOfClosedOnStop, "ForOf-step-closed-by-stop")
+		cnt(m.forOfPassedForeign, "ForOf-step-passed-by-foreign-panic")
+		cnt(m.forOfNextThrew, "ForOf-next()-threw-not-closed")
 		cnt(m.builtinClosedOnThrow, "iterate-builtin-closed-by-throw")
 		cnt(m.builtinNotClosedAbrupt, "iterate-builtin-passed-by-foreign-panic")
 		abruptCrossed = m.crossCatchOrFinally
@@ -480,6 +493,20 @@ func (e *chainsim) Run(t *core.Tape, want bool) *core.Result {
 		}
 		if r.ovfReturned {
 			res.Count("wrapped-overflow-from-native-return()", 1)
+		}
+		// an uncatchable condition struck below a native that drives rt.ForOf and unwound through ForOf
+		for i, f := range frames {
+			if f.kind != cnForOfStep {
+				continue
+			}
+			if r.enteredFos[i+1] && !r.doneFos[i+1] {
+				if chErrKind(fo.err) == "StackOverflowError" {
+					res.Count("ForOf-step-passed-by-stack-overflow", 1)
+				} else {
+					res.Count("ForOf-step-passed-by-interrupt", 1)
+				}
+				break
+			}
 		}
 	}
 	if n == 8 {
